@@ -596,7 +596,7 @@ theorem C17_placeholder_missing (cast : Kind → Str → Option Val) (fl : Flags
 /-- when the property lookup fails -/
 theorem C17_property_missing (env : Env) (file key : Str) (hf : ∀ c ∈ file, c ≠ '#') :
     (assoc env.files file = none → lookupProp env (file ++ '#' :: key) = none) ∧
-    (∀ lines, assoc env.files file = some lines → findProp lines key = none →
+    (∀ lines, assoc env.files file = some lines → findProp (scanLines lines) key = none →
       lookupProp env (file ++ '#' :: key) = none) ∧
     (∀ arg, (∀ c ∈ arg, c ≠ '#') → lookupProp env arg = none) := by
   have hcut : ∀ (xs acc : Str), (∀ c ∈ xs, c ≠ '#') → cutHash (xs ++ '#' :: key) acc = some (acc.reverse ++ xs, key) := by
@@ -637,6 +637,57 @@ theorem C17_property_exact (lines : List Str) (key : Str) :
     (∀ more v w, more ≠ [] → (∀ c ∈ more, c ≠ '=') → lineKV (key ++ more ++ '=' :: v) ≠ some (key, w)) :=
   ⟨fun v => findProp_some_iff lines key v, findProp_none_iff lines key, fun line v => lineKV_iff line key v,
     fun line h => lineKV_no_eq line h, fun more v w hm hno => lineKV_longer_key key more v w hm hno⟩
+
+/-- **A properties file saved with CRLF line ends reads like the same file saved with LF** (round 4; `bufio.ScanLines`
+drops ONE trailing `\r` of every line before the loop of `propertyTokenResolver` sees it): for every list of line texts
+none of which ends in `\r` itself, every key yields the same text — in particular a number, a duration or a boolean
+stays a literal of its kind (`port=8080\r\n` is the number 8080) and a key that is missing stays missing.  Only one
+`\r` is dropped: a text that itself ends in `\r` keeps it. -/
+theorem C17_property_crlf (lines : List Str) (key : Str) :
+    findProp (scanLines (lines.map (· ++ ['\r']))) key = findProp lines key ∧
+    ((∀ l ∈ lines, l.getLast? ≠ some '\r') → findProp (scanLines lines) key = findProp lines key) ∧
+    (∀ env file, (∀ c ∈ file, c ≠ '#') → assoc env.files file = some (lines.map (· ++ ['\r'])) →
+      lookupProp env (file ++ '#' :: key) = findProp lines key) := by
+  have h1 : ∀ l : Str, dropCR (l ++ ['\r']) = l := by
+    intro l; simp [dropCR, List.reverse_append]
+  have hmap : scanLines (lines.map (· ++ ['\r'])) = lines := by
+    simp only [scanLines, List.map_map]
+    conv => rhs; rw [← List.map_id lines]
+    apply List.map_congr_left
+    intro l _; simp [h1]
+  have h2 : ∀ l : Str, l.getLast? ≠ some '\r' → dropCR l = l := by
+    intro l hl
+    unfold dropCR
+    rw [List.getLast?_eq_head?_reverse] at hl
+    cases hr : l.reverse with
+    | nil => rfl
+    | cons c cs =>
+      rw [hr] at hl
+      have : c ≠ '\r' := by intro hc; apply hl; simp [hc]
+      split
+      · rename_i r heq; injection heq with hc _; exact absurd hc.symm (by simpa using this.symm)
+      · rfl
+  refine ⟨by rw [hmap], ?_, ?_⟩
+  · intro h
+    have : scanLines lines = lines := by
+      simp only [scanLines]
+      conv => rhs; rw [← List.map_id lines]
+      apply List.map_congr_left
+      intro l hl; simp [h2 l (h l hl)]
+    rw [this]
+  · intro env file hf hfile
+    have hcut : ∀ (xs acc : Str), (∀ c ∈ xs, c ≠ '#') → cutHash (xs ++ '#' :: key) acc = some (acc.reverse ++ xs, key) := by
+      intro xs
+      induction xs with
+      | nil => intro acc _; simp [cutHash]
+      | cons c cs ih =>
+        intro acc h
+        have hc : (c == '#') = false := by simp [h c (by simp)]
+        simp only [List.cons_append, cutHash, hc, Bool.false_eq_true, if_false]
+        rw [ih (c :: acc) (fun c hm => h c (by simp [hm]))]
+        simp
+    simp [lookupProp, hcut file [] hf, hfile, hmap]
+
 
 /-- the full-strength claim about placeholders inside a string: for EVERY environment the field decodes to the text
 with every placeholder replaced, all at once, by what its resolver returns -/
@@ -945,6 +996,15 @@ example :
     dOf cfg0 discardDefault = some (some true) ∧
     dOf (.map [("pools".toList, .list [.map (("discard_overflow".toList, .bool false) :: poolMap)])]) discardDefault = some (some false) ∧
     dOf cfg0 false = some (some false) := by decide
+
+/-- C17_property_crlf: a file saved with CRLF line ends -/
+example :
+    let env : Env := { vars := [], files := [("/etc/w.properties".toList, ["# dos\r".toList, "port=8080\r".toList, "name=x\r\r".toList, "last=1".toList])] }
+    lookupProp env "/etc/w.properties#port".toList = some "8080".toList ∧
+    lookupProp env "/etc/w.properties#name".toList = some "x\r".toList ∧
+    lookupProp env "/etc/w.properties#last".toList = some "1".toList ∧
+    scalarEq (decodeScalar repoFlags env (.uint 16) (.uint 0) (.str "${property:/etc/w.properties#port}".toList)).val (.uint 8080) = true := by
+  decide
 
 /-- C17_property_exact: keys that are prefixes of one another, comments, a later duplicate -/
 example :
